@@ -1,3 +1,4 @@
+(* EXTRACT-Z: c14 run_c14 *)
 (* Executable entry point for the C14 correspondence: wire case -> wire result. *)
 From OM Require Import Base.Lists Base.Wire Maths.Dense Maths.SparseModel Maths.Ranges.
 Local Open Scope Z_scope.
